@@ -39,6 +39,8 @@ func createExecHandler(killTimeout time.Duration) interp.ExecHandlerFunc {
 
 		err = cmd.Start()
 		if err == nil {
+			// waitDone is closed when the command itself (the leader of the process group) has exited
+			waitDone := make(chan struct{})
 			if done := ctx.Done(); done != nil {
 				go func() {
 					<-done
@@ -46,6 +48,15 @@ func createExecHandler(killTimeout time.Duration) interp.ExecHandlerFunc {
 					if killTimeout <= 0 {
 						_ = syscall.Kill(-cmd.Process.Pid, syscall.SIGKILL)
 						return
+					}
+
+					select {
+					case <-waitDone:
+						// The command has already exited: what is left of its process group are orphans (e.g. background
+						// processes that ignore the interrupt), nobody waits for them, so do not grant them the kill timeout
+						_ = syscall.Kill(-cmd.Process.Pid, syscall.SIGKILL)
+						return
+					default:
 					}
 
 					// TODO: don't temporarily leak this goroutine if the program stops itself with the interrupt. (from github.com/mvdan/sh)
@@ -58,6 +69,12 @@ func createExecHandler(killTimeout time.Duration) interp.ExecHandlerFunc {
 			}
 
 			err = cmd.Wait()
+			close(waitDone)
+			if ctx.Err() != nil {
+				// Canceled, and the command is gone: do not leave members of its process group behind that ignored the
+				// interrupt - the task is reported as finished now
+				_ = syscall.Kill(-cmd.Process.Pid, syscall.SIGKILL)
+			}
 		}
 
 		switch x := err.(type) {
